@@ -149,6 +149,46 @@ class SolverStub:
         pass
 
 
+class CacheMonitor:
+    """observes halmos.solve.check_unsat_cores: every query answered `unsat` from the unsat-core cache is
+    re-solved by the truthful solver (the text is what halmos would have dumped for it)"""
+
+    def __init__(self, solver="yices"):
+        self.solver = solver
+        self.hits: list[dict] = []
+        self.calls = 0
+        self._orig = None
+
+    def install(self):
+        import halmos.solve as hs
+
+        mon = self
+        self._orig = hs.check_unsat_cores
+
+        def check_unsat_cores(query, unsat_cores):
+            mon.calls += 1
+            r = mon._orig(query, unsat_cores)
+            if r:
+                named = "".join(f"(assert (! |{i}| :named <{i}>))\n" for i in query.assertions)
+                text = ("(set-option :produce-unsat-cores true)\n(set-logic QF_AUFBV)\n"
+                        f"{query.smtlib}\n{named}(check-sat)\n(get-model)\n")
+                so, se, rc = truthful_reply(text, mon.solver)
+                mon.hits.append(dict(truth=so.split("\n", 1)[0].strip(), wall_timeout=rc == -99,
+                                     n_cores=len(unsat_cores), n_assertions=len(query.assertions),
+                                     empty_core=any(len(c) == 0 for c in unsat_cores)))
+            return r
+
+        hs.check_unsat_cores = check_unsat_cores
+        return self
+
+    def remove(self):
+        if self._orig is not None:
+            import halmos.solve as hs
+
+            hs.check_unsat_cores = self._orig
+            self._orig = None
+
+
 class UidSeam:
     def __init__(self, ch, mode="random"):
         self.ch = ch
@@ -243,6 +283,8 @@ def run_under_sim(ch, main_fn, *, solver="yices", plan=None, fault_rate=0.0, kin
     from .engine import EngineSeams
 
     eseam = EngineSeams(ch, unknown_rate=unknown_rate, gc_rate=gc_rate, record_pruned=False, patch_uid=False)
+    cmon = CacheMonitor(solver)
+    out.cache = cmon
     tmpdir = tempfile.mkdtemp(prefix=tmp_prefix, dir="/dev/shm" if os.path.isdir("/dev/shm") else None)
     old_tmp = tempfile.tempdir
     buf = io.StringIO()
@@ -255,6 +297,7 @@ def run_under_sim(ch, main_fn, *, solver="yices", plan=None, fault_rate=0.0, kin
         uid.install()
         eseam.install()
         out.eseam = eseam
+        cmon.install()
         with LogCapture(fresh=fresh) as lc, contextlib.redirect_stdout(buf):
             def main():
                 try:
@@ -266,6 +309,7 @@ def run_under_sim(ch, main_fn, *, solver="yices", plan=None, fault_rate=0.0, kin
             sim.run(main)
         out.warnings = lc.records
     finally:
+        cmon.remove()
         eseam.remove()
         uid.remove()
         seams.detach()
